@@ -78,7 +78,9 @@ DISC["PayH"] = _dv("credit-card", "fee")
 DISC["PayC"] = _dv("CREDIT CARD", "rate", name_required=False)
 DISC["MsgU"] = _dv("SMS", "segments", enum=False)
 DISC["MsgL"] = _dv("sms", "parts", enum=False)
-SHARED = {"PetKind": {"type": "string", "enum": ["cat", "dog", "eel"]}}
+# (KindFilter: a schema OUTSIDE every union that refers to the shared enum as well - it must survive the unification)
+SHARED = {"PetKind": {"type": "string", "enum": ["cat", "dog", "eel"]},
+          "KindFilter": {"type": "object", "properties": {"only": {"$ref": "#/components/schemas/PetKind"}, "limit": {"type": "integer"}}}}
 FAMILIES = {"values_equal_after_folding": ["PayU", "PayH", "PayC"], "values_differ_in_case_only": ["MsgU", "MsgL", "Eel"],
             "shared_enum_schema": ["CatR", "DogR", "EelR"], "plain": ["Cat", "Dog", "Eel"], "rewritten": ["CatV2", "HTTPDog", "eel_fish"], "several_values_plain_string": ["CatS", "DogS", "Eel"],
             "several_values_enum": ["CatE", "DogE", "Eel"]}
